@@ -210,6 +210,8 @@ def method_set(tier):
             if isinstance(err, A.OpaqueBox) and tier == "quick" and not isinstance(ok, (A.Unit, A.Prim)):
                 continue
             rshapes.append(A.Result(ok, err))
+    # borrowed opaques as Result arms (C++: diplomat::result<T, const Op&> goes through reference-typed ok() / err() overloads)
+    rshapes += [A.Result(A.Prim("u8"), A.OpaqueRef()), A.Result(A.OpaqueRef(), A.Prim("u8")), A.Result(A.Unit(), A.OpaqueRef()), A.Result(A.OpaqueRef(), A.OpaqueRef())]
     # single-variant enum payloads next to arms narrower than, as wide as and wider than the enum
     rshapes += [A.EN1, A.NullableRet(A.EN1), A.Result(A.Unit(), A.EN1), A.Result(A.Prim("u8"), A.EN1), A.Result(A.EN1, A.Prim("u8")), A.Result(A.EN1, A.Unit()),
                 A.Result(A.Prim("i64"), A.EN1)]
@@ -290,7 +292,7 @@ def method_set(tier):
             a += "#[diplomat::attr(any(dart, kotlin), disable)] "  # Option<&[T]> parameters crash these backends (reported by C15)
         if m["kind"] == "CB":
             a += "#[diplomat::attr(not(supports = callbacks), disable)] "
-        if any(isinstance(x, (A.Enum, A.Struct, A.OpaqueBox)) for x in ([m["ret"].err] if isinstance(m["ret"], A.Result) else [])):
+        if any(isinstance(x, (A.Enum, A.Struct, A.OpaqueBox, A.OpaqueRef)) for x in ([m["ret"].err] if isinstance(m["ret"], A.Result) else [])):
             a += "#[diplomat::attr(kotlin, disable)] "  # kotlin requires the `error` attribute on custom error types
         m["attrs"] = a
     types = dict(enums=decl_enums, structs=structs, owners=owners,
